@@ -163,7 +163,7 @@ ADDENDA = {
  'C19': ('The packet fetch reports end-of-file to the lap helpers only at a link boundary (R19.5) and vorbis_synthesis_lapout '
          'can be called again on the state it left: every window move is guarded by a test the function falsifies (R19.6).',
          ' + K4/K2 idempotence rule for lapout'),
- 'C20': ('Units of measure are checked in the block layer as well (R20.5: stream vs output samples meet only through the '
+ 'C20': ('Units of measure are checked in the block layer as well (R20.6: stream vs output samples meet only through the '
          'half-rate shift, the flag is never added to a sample count).', ' + units-of-measure tag analysis in lib/block.c'),
 }
 
